@@ -84,7 +84,19 @@ type Delivery struct {
 	// ErrorAt >= 0: a sticky non-EOF error after this many bytes.
 	ErrorAt       int  `json:"error_at"`
 	ErrorWithData bool `json:"error_with_data,omitempty"`
+	// TempErrorAfter > 0: once, after this many bytes have been delivered, one
+	// Read call fails with a temporary error (nothing delivered); the stream
+	// works again afterwards.
+	TempErrorAfter int `json:"temp_error_after,omitempty"`
 }
+
+// TemporaryError is a transient failure of one Read call (it says so the way
+// net.Error does).
+type TemporaryError struct{}
+
+func (TemporaryError) Error() string   { return "simio: temporary read failure, nothing delivered" }
+func (TemporaryError) Temporary() bool { return true }
+func (TemporaryError) Timeout() bool   { return true }
 
 // NoFault returns a delivery without truncation or error.
 func NoFault(profile string, seed uint64) Delivery {
@@ -112,12 +124,13 @@ var Profiles = []string{"all", "one", "uniform", "geom", "block", "mixed"}
 
 // Source is an io.Reader over a byte string under a delivery schedule.
 type Source struct {
-	data  []byte
-	pos   int
-	d     Delivery
-	r     *simrt.RNG
-	ended error // sticky terminal condition once delivered
-	zeros int
+	data      []byte
+	pos       int
+	d         Delivery
+	r         *simrt.RNG
+	ended     error // sticky terminal condition once delivered
+	zeros     int
+	TempFired bool // the one-shot temporary error has been delivered
 
 	OnRead     func() // yield point of the medium, called at the start of every Read
 	Reads      int    // Read calls (the logical step count)
@@ -203,6 +216,10 @@ func (s *Source) Read(p []byte) (int, error) {
 	if len(p) == 0 {
 		return 0, nil
 	}
+	if s.d.TempErrorAfter > 0 && !s.TempFired && s.pos >= s.d.TempErrorAfter {
+		s.TempFired = true
+		return 0, TemporaryError{}
+	}
 	if s.d.ZeroReads && s.zeros < 3 && s.r.Intn(8) == 0 {
 		s.zeros++
 		return 0, nil
@@ -213,6 +230,9 @@ func (s *Source) Read(p []byte) (int, error) {
 		return 0, s.ended
 	}
 	n := s.chunk(len(p))
+	if s.d.TempErrorAfter > 0 && !s.TempFired && s.pos < s.d.TempErrorAfter && s.pos+n > s.d.TempErrorAfter {
+		n = s.d.TempErrorAfter - s.pos
+	}
 	copy(p, s.data[s.pos:s.pos+n])
 	s.pos += n
 	if s.pos >= len(s.data) {
